@@ -45,7 +45,7 @@ class Abstraction:
     def __call__(self, e):
         key = e.get_id()
         if key in self._cache:
-            return self._cache[key]
+            return self._cache[key][1]
         x = e
         if self.sub:
             for _ in range(30):
@@ -53,7 +53,7 @@ class Abstraction:
                 if y.eq(x):
                     break
                 x = y
-        self._cache[key] = x
+        self._cache[key] = (e, x)
         return x
 
     def by_name(self):
@@ -169,6 +169,25 @@ def axioms(ab, max_pairs=400, max_triples=600):
     return ax
 
 
+def _relevant_const_axioms(cs):
+    present = set()
+    for c in cs:
+        present |= free_vars(c)
+    chosen, changed = [], True
+    pool = [(a, free_vars(a)) for a in CONST_AXIOMS]
+    while changed:
+        changed = False
+        for a, v in pool:
+            if a.get_id() in {x.get_id() for x in chosen}:
+                continue
+            if v & present:
+                chosen.append(a)
+                if not v <= present:
+                    present |= v
+                changed = True
+    return chosen
+
+
 class ModelView:
     def __init__(self, model, ab):
         self.model, self.ab = model, ab
@@ -197,7 +216,7 @@ def _mk_solver(has_int, timeout_ms):
     return s
 
 
-def solve(constraints, timeout_ms=20000, want_model=True, extra_axioms=()):
+def solve(constraints, timeout_ms=20000, want_model=True, extra_axioms=(), use_axioms=True):
     """decide satisfiability of the conjunction.  returns (status, ModelView|None)"""
     t0 = time.time()
     cs = [c for c in constraints]
@@ -217,11 +236,12 @@ def solve(constraints, timeout_ms=20000, want_model=True, extra_axioms=()):
     s = _mk_solver(ab.has_int, timeout_ms)
     for c in simp:
         s.add(c)
-    for a in axioms(ab):
-        s.add(a)
+    if use_axioms:
+        for a in axioms(ab):
+            s.add(a)
     for a in extra_axioms:
         s.add(ab(a))
-    for a in CONST_AXIOMS:
+    for a in _relevant_const_axioms(simp):
         s.add(a)
     r = s.check()
     st = str(r)
@@ -242,6 +262,55 @@ def solve(constraints, timeout_ms=20000, want_model=True, extra_axioms=()):
     if st == "sat" and want_model:
         return st, ModelView(s.model(), ab)
     return st, None
+
+
+_vars_cache = {}
+
+
+def free_vars(e):
+    """ids of the uninterpreted constants occurring in e"""
+    i = e.get_id()
+    if i in _vars_cache:
+        return _vars_cache[i][1]
+    out = set()
+    seen = set()
+    stack = [e]
+    while stack:
+        x = stack.pop()
+        xi = x.get_id()
+        if xi in seen:
+            continue
+        seen.add(xi)
+        if z3.is_const(x):
+            if x.decl().kind() == z3.Z3_OP_UNINTERPRETED:
+                out.add(xi)
+        else:
+            stack.extend(x.children())
+    out = frozenset(out)
+    _vars_cache[i] = (e, out)  # keep e alive: z3 recycles ast ids of collected terms
+    return out
+
+
+def prove(hyps, neg, timeout_ms=20000):
+    """decide hyps & neg.  Sound staging: `unsat` from a *subset* of the hypotheses is `unsat` of
+    the whole; `sat` is only reported from the full set.  returns (status, ModelView|None, stage)"""
+    t0 = time.time()
+    gv = free_vars(neg)
+    hv = [free_vars(h) for h in hyps]
+    stage0 = [h for h, v in zip(hyps, hv) if v and v <= gv]
+    stage1 = [h for h, v in zip(hyps, hv) if v & gv]
+    plans = []
+    if len(stage0) < len(hyps):
+        plans.append(("within-goal-variables", stage0, 0.15))
+    if len(stage0) < len(stage1) < len(hyps):
+        plans.append(("sharing-a-variable", stage1, 0.25))
+    for name, hs, frac in plans:
+        st, _ = solve(hs + [neg], timeout_ms=max(500, int(timeout_ms * frac)), want_model=False)
+        if st == "unsat":
+            return "unsat", None, name
+    left = max(1000, timeout_ms - int((time.time() - t0) * 1000))
+    st, mv = solve(list(hyps) + [neg], timeout_ms=left)
+    return st, mv, "all-hypotheses"
 
 
 def to_smt2(constraints, max_len=4000):
